@@ -4,55 +4,75 @@
 (* granularity of Layered::try_close frames.                               *)
 (*                                                                         *)
 (* A stack of L layers is L nested Layered frames.  Closing a span walks   *)
-(* down (each frame: Registry::start_close, counter + 1), the registry's   *)
-(* try_close answers true, and on the way up each frame tells its layer    *)
-(* (Subscribe::on_close - arbitrary user code, a yield point) and drops    *)
-(* its guard: counter - 1, and the frame that takes the counter from 1 to  *)
-(* 0 clears the slot.  Several threads close different spans of the same   *)
-(* registry at the same time; a thread closes its spans one after another  *)
-(* (a cascade to the parent is such a second close, begun from the clear). *)
+(* down (each frame: Registry::start_close), the registry's try_close      *)
+(* answers true, and on the way up each frame tells its layer              *)
+(* (Subscribe::on_close - arbitrary user code) and drops its guard; the    *)
+(* OUTERMOST frame of that close clears the slot.  Several threads close   *)
+(* different spans of the same registry at the same time; a thread closes  *)
+(* its spans one after another (a cascade to the parent is such a second   *)
+(* close, begun from the clear) - or NESTED: user code inside on_close     *)
+(* drops the last handle of another span, whose whole close then runs      *)
+(* inside the outer one.                                                   *)
 (*                                                                         *)
-(* The counter is a thread-local (CLOSE_COUNT).  Shared = TRUE is the      *)
-(* negative control: one counter for the registry.                        *)
+(* How a guard knows that it is the outermost frame of its close:          *)
+(*   Mode = "byid"    the thread keeps the ids being closed; the frame     *)
+(*                    that registered the id is the outermost (the code    *)
+(*                    after the repair of finding F29)                     *)
+(*   Mode = "count"   a per-thread frame counter; the frame that takes it  *)
+(*                    from 1 to 0 clears ITS span (the code before the     *)
+(*                    repair: right without nesting, leaks the nested      *)
+(*                    span - F29)                                          *)
+(*   Mode = "shared"  one counter for the registry (negative control for   *)
+(*                    closes overlapping across threads)                   *)
 (***************************************************************************)
-EXTENDS Naturals, FiniteSets
-CONSTANTS Threads, L, Rounds, Shared
-VARIABLES pc, d, round, cnt, notified, removed
-vars == <<pc, d, round, cnt, notified, removed>>
+EXTENDS Naturals, FiniteSets, Sequences
+CONSTANTS Threads, L, Rounds, Mode, Nesting
+VARIABLES stk, next, cnt, notified, removed
+vars == <<stk, next, cnt, notified, removed>>
+\* stk[t]: the closes in progress on t, outermost first: [r: span, d: frames entered, ph: "down" | "notify" | "guard"]
 
-Key(t) == IF Shared THEN 0 ELSE t
-Init == /\ pc = [t \in Threads |-> "down"] /\ d = [t \in Threads |-> 0] /\ round = [t \in Threads |-> 1]
+Key(t) == IF Mode = "shared" THEN 0 ELSE t
+Top(t) == stk[t][Len(stk[t])]
+SetTop(t, e) == [stk EXCEPT ![t] = [@ EXCEPT ![Len(@)] = e]]
+Pop(t) == [stk EXCEPT ![t] = SubSeq(@, 1, Len(@) - 1)]
+
+Init == /\ stk = [t \in Threads |-> << >>] /\ next = [t \in Threads |-> 1]
         /\ cnt = [k \in Threads \cup {0} |-> 0]
         /\ notified = [t \in Threads |-> [r \in 1..Rounds |-> 0]]
         /\ removed = [t \in Threads |-> [r \in 1..Rounds |-> FALSE]]
 
+\* the last handle of the thread's next span is dropped: at top level, or (Nesting) by user code inside an on_close
+Begin(t) == /\ next[t] <= Rounds
+            /\ stk[t] = << >> \/ (Nesting /\ stk[t] # << >> /\ Top(t).ph = "notify")
+            /\ stk' = [stk EXCEPT ![t] = Append(@, [r |-> next[t], d |-> 0, ph |-> "down"])]
+            /\ next' = [next EXCEPT ![t] = @ + 1]
+            /\ UNCHANGED <<cnt, notified, removed>>
 \* Layered::try_close, on the way in: start_close
-Down(t) == /\ pc[t] = "down" /\ d[t] < L
-           /\ cnt' = [cnt EXCEPT ![Key(t)] = @ + 1] /\ d' = [d EXCEPT ![t] = @ + 1]
-           /\ pc' = [pc EXCEPT ![t] = IF d[t] + 1 = L THEN "notify" ELSE "down"]     \* innermost: the registry answers `true`
-           /\ UNCHANGED <<round, notified, removed>>
+Down(t) == /\ stk[t] # << >> /\ Top(t).ph = "down" /\ Top(t).d < L
+           /\ cnt' = [cnt EXCEPT ![Key(t)] = @ + 1]
+           /\ stk' = SetTop(t, [Top(t) EXCEPT !.d = @ + 1, !.ph = IF Top(t).d + 1 = L THEN "notify" ELSE "down"])   \* innermost: the registry answers `true`
+           /\ UNCHANGED <<next, notified, removed>>
 \* ... on the way out: guard.set_closing(); subscriber.on_close(id, ctx)
-Notify(t) == /\ pc[t] = "notify"
-             /\ notified' = [notified EXCEPT ![t][round[t]] = @ + 1]
-             /\ pc' = [pc EXCEPT ![t] = "guard"]
-             /\ UNCHANGED <<d, round, cnt, removed>>
+Notify(t) == /\ stk[t] # << >> /\ Top(t).ph = "notify"
+             /\ notified' = [notified EXCEPT ![t][Top(t).r] = @ + 1]
+             /\ stk' = SetTop(t, [Top(t) EXCEPT !.ph = "guard"])
+             /\ UNCHANGED <<next, cnt, removed>>
 \* ... Drop for CloseGuard
 GuardDrop(t) ==
-  /\ pc[t] = "guard"
-  /\ LET c == cnt[Key(t)] IN
+  /\ stk[t] # << >> /\ Top(t).ph = "guard"
+  /\ LET c == cnt[Key(t)] e == Top(t)
+         outermost == IF Mode = "byid" THEN e.d = 1 ELSE c = 1 IN
        /\ cnt' = [cnt EXCEPT ![Key(t)] = c - 1]
-       /\ removed' = IF c = 1 THEN [removed EXCEPT ![t][round[t]] = TRUE] ELSE removed
-  /\ d' = [d EXCEPT ![t] = @ - 1]
-  /\ IF d[t] = 1 THEN IF round[t] < Rounds THEN round' = [round EXCEPT ![t] = @ + 1] /\ pc' = [pc EXCEPT ![t] = "down"]
-                      ELSE pc' = [pc EXCEPT ![t] = "done"] /\ UNCHANGED round
-     ELSE pc' = [pc EXCEPT ![t] = "notify"] /\ UNCHANGED round
-  /\ UNCHANGED notified
+       /\ removed' = IF outermost THEN [removed EXCEPT ![t][e.r] = TRUE] ELSE removed
+       /\ stk' = IF e.d = 1 THEN Pop(t) ELSE SetTop(t, [e EXCEPT !.d = @ - 1, !.ph = "notify"])
+  /\ UNCHANGED <<next, notified>>
 
-Next == \E t \in Threads : Down(t) \/ Notify(t) \/ GuardDrop(t)
+Next == \E t \in Threads : Begin(t) \/ Down(t) \/ Notify(t) \/ GuardDrop(t)
 Spec == Init /\ [][Next]_vars
 
+InProgress(t, r) == \E i \in DOMAIN stk[t] : stk[t][i].r = r
 \* the slot is cleared only after every layer has been told (the data is readable during each on_close) ...
 ReadableDuringClose == \A t \in Threads, r \in 1..Rounds : removed[t][r] => notified[t][r] = L
 \* ... and it IS cleared once the outermost frame of that close has returned
-ClearedAfterClose == \A t \in Threads, r \in 1..Rounds : (round[t] > r \/ pc[t] = "done") => removed[t][r]
+ClearedAfterClose == \A t \in Threads, r \in 1..Rounds : (r < next[t] /\ ~InProgress(t, r)) => removed[t][r]
 =============================================================================
